@@ -203,12 +203,19 @@ class PoolWorld:
         self.sc = sc
         self.key = sc["entry"]
         self.entry = R.ENTRIES[self.key]
-        self.qs = R.build_strategy(self.key, mk_seed(sc["seed"]), overrides=copy.deepcopy(sc.get("init_overrides")))
+        self.str_labels = bool(sc.get("str_labels")) and self.entry["task"] == "clf"
+        overrides = copy.deepcopy(sc.get("init_overrides"))
+        if self.str_labels:
+            # class names are strings, a missing label is None: strategy, model and label vector use that coding
+            overrides = dict(overrides or {})
+            overrides["classes"] = [R.label_name(c) for c in sc.get("classes", [0, 1])]
+            overrides["missing_label"] = None
+        self.qs = R.build_strategy(self.key, mk_seed(sc["seed"]), overrides=overrides)
         self.arg, self.fitflag = R.model_arg(self.key)
         self.params = R.query_params(self.key)
         self.model = None
         if self.arg:
-            self.model = R.model(sc["model"], classes=sc.get("classes", [0, 1]), seed=sc.get("model_seed", 0))
+            self.model = R.model(sc["model"], classes=sc.get("classes", [0, 1]), seed=sc.get("model_seed", 0), str_labels=self.str_labels)
             if use_chatty:
                 self.model = chatty(self.model)
         self.X = np.array(sc["X"], dtype=float)
@@ -221,8 +228,19 @@ class PoolWorld:
 
         return np.ascontiguousarray(rbf_kernel(X, X, gamma=0.5), dtype=float)
 
+    def encode_y(self, y):
+        """The label vector as the caller holds it: NaN-coded floats, or class names with None (string-label mode)."""
+        y = np.asarray(y)
+        if not self.str_labels or y.dtype == object:
+            return y
+        out = np.full(y.shape, None, dtype=object)
+        lab = ~np.isnan(y)
+        out[lab] = [R.label_name(v) for v in y[lab]]
+        return out
+
     def fit_model(self, y, sample_weight=None):
         """The caller pre-fits the model (fit_* = False protocol)."""
+        y = self.encode_y(y)
         ms = self.model if isinstance(self.model, list) else [self.model]
         for m in ms:
             if sample_weight is not None:
@@ -238,7 +256,7 @@ class PoolWorld:
                 kw[self.fitflag] = False
         kw["batch_size"] = batch_size
         kw["return_utilities"] = return_utilities
-        return self.qs.query(self.X, y, **kw)
+        return self.qs.query(self.X, self.encode_y(y), **kw)
 
 
 def collaborator_sane(w, y):
@@ -253,7 +271,7 @@ def collaborator_sane(w, y):
         if not isinstance(m, SklearnClassifier):
             continue
         try:
-            c = clone(m).fit(w.X, y)
+            c = clone(m).fit(w.X, w.encode_y(y))
             P = np.asarray(c.predict_proba(w.X), dtype=float)
         except Exception:
             return False
@@ -331,6 +349,7 @@ def gen_pool_scenario(rng: SimRng, key, mode, max_n=24, big=False):
         "oracle": {"kind": okind, "per_sample": per, "prefix_len": g.pick([0, 3, 6]) if okind == "prefix_single" else 0, "prefix_label": 0.0 if e["task"] == "clf" else 0.5},
         "return_utilities": g.chance(0.5),
         "prefit": g.chance(0.2),
+        "str_labels": bool(e["task"] == "clf" and g.fork("str").chance(0.15)),
     }
     if e["flags"].get("batch1"):
         sc["batch_size"] = 1
@@ -473,6 +492,9 @@ class C14Check(PoolCheckBase):
         revealed = 0
         cycles = 0
         cond = {"entry": sc["entry"]}
+        if w.str_labels:
+            cond["str_labels"] = True
+            ctx.probe("string_class_labels")
         while np.isnan(y).any():
             u = int(np.isnan(y).sum())
             if u == n:
@@ -736,13 +758,14 @@ class C05Check(PoolCheckBase):
                 except Exception as ex:
                     ctx.notes.append(f"caller-side fit failed {ex!r}")
                     prefit = False
-            arrays = {"X": X, "y": y}
+            y_arg = w.encode_y(y)  # the label vector object the caller hands in (object dtype in string-label mode)
+            arrays = {"X": X, "y": y_arg}
             arrays.update({k: v for k, v in kw.items() if isinstance(v, np.ndarray)})
             before = {k: (v.copy(), v.dtype, v.shape) for k, v in arrays.items()}
             model_fp = deep_fingerprint(w.model) if w.model is not None else None
             watcher.arm(arrays, op.get("fail_at"))
             try:
-                res = w.call(y, op["batch"], return_utilities=op.get("ru", False), prefit=prefit, **kw)
+                res = w.call(y_arg, op["batch"], return_utilities=op.get("ru", False), prefit=prefit, **kw)
             except InjectedPeerFailure:
                 # the caller's model failed in the middle of the query: the frame conditions below still hold
                 ctx.fault("peer_failed_mid_query")
